@@ -89,6 +89,37 @@ TReloaded ==
   /\ BuiltMatches(Rec[l].proj)
   /\ UNCHANGED coreVars
 
+(* C19 on a recorded ontology built with the documented defaults: modifier roots, category roots, and the classification *)
+(* of every term (categories in ascending id order)                                                                    *)
+CatsMatches(ev) ==
+  LET mods == children[1] \ {118}
+      cats == mods \cup children[118]
+  IN (Focus \in {"C19", "C13"}) =>
+       /\ ev.modifier = Sorted(mods) /\ ev.categories = Sorted(cats)
+       /\ Len(ev.terms) = Len(arena)
+       /\ \A t \in Range(ev.terms) :
+             /\ t.id \in Terms
+             /\ t.is_modifier <=> ((allp[t.id] \cup {t.id}) \cap mods # {})
+             /\ t.categories = Sorted((allp[t.id] \cup {t.id}) \cap cats)
+TCats == Ev("Cats") /\ Step /\ phase = "connected" /\ 1 \in Terms /\ 118 \in Terms /\ CatsMatches(Rec[l]) /\ UNCHANGED coreVars
+
+(* C13 on a recorded ontology: HpoSet operations on a random subset (up to 36 members)                                  *)
+SetOpMatches(ev) ==
+  LET S    == Range(ev.set)
+      mods == IF ev.defaults THEN children[1] \ {118} ELSE {}
+      cats == IF ev.defaults THEN mods \cup children[118] ELSE {}
+      nomod == {t \in S : (allp[t] \cup {t}) \cap mods = {}}
+      catsOf(t) == (allp[t] \cup {t}) \cap cats
+      wantCats == LET ks == Sorted(UNION {catsOf(t) : t \in S}) IN [i \in 1..Len(ks) |-> <<ks[i], Cardinality({t \in S : ks[i] \in catsOf(t)})>>]
+  IN (Focus = "C13") =>
+       /\ S \subseteq Terms /\ ev.set = Sorted(S) /\ ev.len = Cardinality(S)
+       /\ ev.child = Sorted(ChildNodes(S))
+       /\ ev.without_modifier = Sorted(nomod) /\ ev.remove_modifier = Sorted(nomod)
+       /\ ev.gene = Sorted(SetLinked("gene", S)) /\ ev.omim = Sorted(SetLinked("omim", S)) /\ ev.orpha = Sorted(SetLinked("orpha", S))
+       /\ ~ev.ic_bad                     \* the aggregated IC is -ln(|union| / N) on exactly these unions (evaluated by the recorder)
+       /\ ev.cats = wantCats
+TSetOp == Ev("SetOp") /\ Step /\ phase = "connected" /\ SetOpMatches(Rec[l]) /\ UNCHANGED coreVars
+
 (* --- sub_ontology: a nondeterministic specification (ANY shortest path   *)
 (* per leaf), validated in this direction only.                            *)
 SubMatches(ev) ==
@@ -173,7 +204,7 @@ QueryMatches(ev) ==
 
 TQuery == Ev("Query") /\ Step /\ phase = "connected" /\ QueryMatches(Rec[l]) /\ UNCHANGED coreVars
 
-TNext == TReset \/ TNewTerm \/ TTermsComplete \/ TAddParent \/ TAddParentRejected \/ TConnectAll \/ TAddRecord \/ TAnnotate \/ TAnnotateRejected \/ TBuilt \/ TReloaded \/ TSub \/ TSubErr \/ TQuery
+TNext == TReset \/ TNewTerm \/ TTermsComplete \/ TAddParent \/ TAddParentRejected \/ TConnectAll \/ TAddRecord \/ TAnnotate \/ TAnnotateRejected \/ TBuilt \/ TReloaded \/ TCats \/ TSetOp \/ TSub \/ TSubErr \/ TQuery
 
 TSpec == TInit /\ [][TNext]_tvars
 
